@@ -5,5 +5,23 @@ NOT_APPLICABLE = {
             "static rule within reach decides any part of it (DESIGN.md section 6)"),
 }
 TECHNIQUE = {
-    "C01": "absence / who-may-call rules over resolved MIR (RandomState collections, entropy sources, globals), runtime-builder configuration and RNG provenance slicing",
+    "C01": "absence / who-may-call rules over resolved MIR (RandomState collections, entropy sources, globals), runtime-builder configuration and RNG provenance slicing; clippy cross-reference and a !Send compile-fail witness in the thorough tier",
+    "C02": "dominance (credit / shutdown guards), per-path release counts, queue-vs-credit sizing inequality, type facts (not Clone) over resolved MIR; compile-fail witnesses in the thorough tier",
+    "C03": "enum-typestate dataflow extracting the link-state transition relation, context-sensitive walk from the random process, must-purge path rule, sibling selector agreement",
+    "C04": "crash-sequence dominance and must-call summaries, RAII pairing table over Drop impls, obligation dataflow on connect (cancellation edges), replace-provenance of runtime and LocalSet",
+    "C05": "loop-domain (partition component) and per-iteration path counts, provenance of every clock-advance argument, sum-shape checks of the timer accessors, sibling call-site agreement",
+    "C06": "dominance of buffer growth / trim by sequence-number guards, provenance of the rcv_nxt advance, must-act path rule in the retransmit sweep, abort-before-park dominance, wake-flag path rule, sibling state-set agreement",
+    "C07": "who-may-write tables on durable state and the pending log, durability classes extracted from partition closures, per-arm synced_entries updates with independence of the rename halves, crash must-clear path rule",
+    "C08": "who-may-write / who-may-call on message status and release, typestate at queue purges, dominance of removal by maturity guards, order-preserving operation table, type facts; witnesses in the thorough tier",
+    "C09": "receive-filter dominance, payload provenance, who-may-write on the membership table, drop-key provenance, fill-only-when-empty dominance on the readiness slot",
+    "C11": "result-consumption (no dropped Result), dominance of completion folding and deadline ordering, loop-domain and take-before-await rules, constructor / store provenance for panic forwarding",
+    "C12": "FIFO operation table, bind-match dominance, obligation dataflow (acquire / release / guard / discharge) over return, `?` and Yield cancellation edges, pair-order provenance",
+    "C13": "enum-typestate dataflow over Tcb::state with per-path transitions, index who-may-write, shim-side obligation dataflow, wildcard-awareness dominance, sibling state-set agreement",
+    "C14": "clamp-shape and provenance of the delay, config-selection sibling agreement, link-clock who-may-write and must-update path rule, FIFO table (shared)",
+    "C15": "allocation-return dominance by both in-use predicates, predicate field reads, Occupied/Vacant sibling shape, RAII release rules, name-table who-may-write, address bit-tiling",
+    "C16": "bounded-write provenance (min / saturating_sub against the cap), MSS and window provenance of emitted payloads, MTU guard dominance incl. caller-side variant, window-refresh must rule",
+    "C17": "bind ordering dominance and three-way conflict shape, index-consistency must rule, allocator predicate fields and exhaustion operands, demux precedence dominance, routing who-may-call",
+    "C18": "per-entry path counts in submit, found-implies-removed dominance in cancel, maturity-guard dominance, sibling comparison of Fs primitives and knobs with the synchronous shim, notify-after-push must rule",
+    "C19": "who-may-mutate table on the rule chain, first-non-Pass loop shape, loopback dominance, verdict-routing reachability, ordered-insert search-key provenance, guard Drop rule; !Send witness in the thorough tier",
+    "C20": "registry who-may-mutate table and first-match loop shape, per-path report counts, reaction-arm reachability (diverge / release / hand-over), Drop rules",
 }
